@@ -253,12 +253,17 @@ def uuid_spellings_family():
         return {'plain': h, 'dashed': dashed, 'braced': '{' + dashed + '}',
                 'braced-plain': '{' + h + '}', 'urn': 'urn:uuid:' + dashed,
                 'urn-plain': 'urn:uuid:' + h,
-                'urn-only': 'urn:' + dashed}[how]
+                'urn-only': 'urn:' + dashed,
+                # decorations combined, as uuid.UUID reads them
+                'braced-urn': '{urn:uuid:' + dashed + '}',
+                'urn-braced': 'urn:uuid:{' + dashed + '}',
+                'uuid-only': 'uuid:' + h}[how]
     for trial in range(40):
         for n in (30, 31, 32, 33, 34):
             h = ''.join(r.choice(hexd) for _ in range(n))
             for how in ('plain', 'dashed', 'braced', 'braced-plain', 'urn',
-                        'urn-plain', 'urn-only'):
+                        'urn-plain', 'urn-only', 'braced-urn', 'urn-braced',
+                        'uuid-only'):
                 for case in ('lower', 'upper', 'mixed'):
                     t = decorate(h, how)
                     if case == 'upper':
@@ -273,6 +278,10 @@ def uuid_spellings_family():
                             t = 'urn:' + ('uuid:' + t[9:]
                                           if t[4:9].lower() == 'uuid:'
                                           else t[4:])
+                        if t[:5].lower() == '{urn:':
+                            t = '{urn:uuid:' + t[10:]
+                        if t[:5].lower() == 'uuid:':
+                            t = 'uuid:' + t[5:]
                     try:
                         got = U.is_uuid_like(t)
                         exc = None
